@@ -329,14 +329,29 @@ Fixpoint jnorm (v : jvalue) : jvalue :=
 Lemma jnorm_obj : forall l, jnorm (JObj l) = JObj (fold_left (ins_member jnorm) l []).
 Proof. reflexivity. Qed.
 
+(* every number of the value satisfies P *)
+Inductive nums_sat (P : float -> Prop) : jvalue -> Prop :=
+| nv_null : nums_sat P JNull
+| nv_bool : forall b, nums_sat P (JBool b)
+| nv_num : forall f, P f -> nums_sat P (JNum f)
+| nv_str : forall s, nums_sat P (JStr s)
+| nv_arr : forall l, Forall (nums_sat P) l -> nums_sat P (JArr l)
+| nv_obj : forall l, Forall (fun kv => nums_sat P (snd kv)) l -> nums_sat P (JObj l).
+
+Lemma nums_sat_impl : forall (P Q : float -> Prop), (forall f, P f -> Q f) ->
+  forall v, nums_sat P v -> nums_sat Q v.
+Proof.
+  intros P Q HPQ. induction v as [|bv|f|s|l IH|l IH] using jvalue_ind'; intro H; inversion H; subst;
+    constructor; auto.
+  - revert IH H1. clear H. induction l as [|x r IHr]; intros IH H1; [constructor|].
+    inversion IH; inversion H1; subst. constructor; auto.
+  - revert IH H1. clear H. induction l as [|x r IHr]; intros IH H1; [constructor|].
+    inversion IH; inversion H1; subst. constructor; auto.
+Qed.
+
 (* every number is a real float64 (canonical mantissa / exponent) *)
-Inductive nums_valid : jvalue -> Prop :=
-| nv_null : nums_valid JNull
-| nv_bool : forall b, nums_valid (JBool b)
-| nv_num : forall f, valid_binary prec emax f = true -> nums_valid (JNum f)
-| nv_str : forall s, nums_valid (JStr s)
-| nv_arr : forall l, Forall nums_valid l -> nums_valid (JArr l)
-| nv_obj : forall l, Forall (fun kv => nums_valid (snd kv)) l -> nums_valid (JObj l).
+Definition is_float64 (f : float) : Prop := valid_binary prec emax f = true.
+Definition nums_valid : jvalue -> Prop := nums_sat is_float64.
 
 Lemma jdepth_arr : forall l, jdepth (JArr l) = 1 + fold_right (fun x m => N.max (jdepth x) m) 0 l.
 Proof. reflexivity. Qed.
@@ -344,11 +359,11 @@ Lemma jdepth_obj : forall l, jdepth (JObj l) = 1 + fold_right (fun kv m => N.max
 Proof. reflexivity. Qed.
 
 Section Accept.
-  (* the two facts about Num/F64's float formatting that this file needs *)
-  Hypothesis Hnum_syntax : forall x b,
-    valid_binary prec emax x = true -> format_json x = Some b -> json_number b = true.
-  Hypothesis Hnum_roundtrip : forall x b,
-    valid_binary prec emax x = true -> format_json x = Some b -> parse_float b = PFok x.
+  (* the two facts about Num/F64's float formatting that this file needs, for the numbers
+     (those satisfying P) that occur in the value *)
+  Variable P : float -> Prop.
+  Hypothesis Hnum_syntax : forall x b, P x -> format_json x = Some b -> json_number b = true.
+  Hypothesis Hnum_roundtrip : forall x b, P x -> format_json x = Some b -> parse_float b = PFok x.
 
   Variable ind : bool.
 
@@ -356,7 +371,7 @@ Section Accept.
      anywhere, containers below the top level (the top-level container ends the scan) *)
   Definition accepts (v : jvalue) : Prop :=
     forall d b st p,
-      enc_gen ind d v = Some b -> nums_valid v -> begin_mode st ->
+      enc_gen ind d v = Some b -> nums_sat P v -> begin_mode st ->
       s_depth st + jdepth v <= max_nesting_depth ->
       s_stack st <> [] \/ is_container v = false ->
       push_value (jnorm v) st = Some p ->
@@ -365,7 +380,7 @@ Section Accept.
   (* a container up to its closing bracket *)
   Definition body_ok (v : jvalue) : Prop :=
     forall d b st,
-      enc_gen ind d v = Some b -> nums_valid v -> begin_mode st ->
+      enc_gen ind d v = Some b -> nums_sat P v -> begin_mode st ->
       s_depth st + jdepth v <= max_nesting_depth ->
       exists body cl q pin,
         b = body ++ [cl] /\ run st body = Some q /\
@@ -404,7 +419,7 @@ Section Accept.
 
   (* one array element from a state that expects a value *)
   Lemma item_accepted : forall x d a q ritems stk,
-    accepts x -> enc_gen ind d x = Some a -> nums_valid x ->
+    accepts x -> enc_gen ind d x = Some a -> nums_sat P x ->
     begin_mode q -> s_stack q = FArr ritems :: stk ->
     s_depth q + jdepth x <= max_nesting_depth ->
     exists st1, run q (nl ind d ++ a) = Some st1 /\
@@ -421,7 +436,7 @@ Section Accept.
 
   Lemma arr_tail : forall l, Forall accepts l -> forall d body st' ritems stk dep top rng,
     cat_items ind d false (map (enc_gen ind d) l) = Some body ->
-    Forall nums_valid l ->
+    Forall (nums_sat P) l ->
     dep + fold_right (fun x m => N.max (jdepth x) m) 0 l <= max_nesting_depth ->
     settled st' (mkS MEndValue (FArr ritems :: stk) dep [] top rng) ->
     exists st'', run st' body = Some st'' /\
@@ -490,7 +505,7 @@ Section Accept.
 
   (* one member  "key": value  from a state that expects a key *)
   Lemma member_accepted : forall k x d a q f stk,
-    accepts x -> enc_gen ind d x = Some a -> nums_valid x ->
+    accepts x -> enc_gen ind d x = Some a -> nums_sat P x ->
     (s_mode q = MBeginString \/ s_mode q = MBeginStringOrEmpty) -> s_lit q = [] ->
     s_stack q = FObjKey f :: stk ->
     s_depth q + jdepth x <= max_nesting_depth ->
@@ -523,7 +538,7 @@ Section Accept.
 
   Lemma obj_tail : forall l, Forall (fun kv => accepts (snd kv)) l -> forall d body st' f stk dep top rng,
     cat_items ind d false (map (enc_kv d) l) = Some body ->
-    Forall (fun kv => nums_valid (snd kv)) l ->
+    Forall (fun kv => nums_sat P (snd kv)) l ->
     dep + fold_right (fun kv m => N.max (jdepth (snd kv)) m) 0 l <= max_nesting_depth ->
     settled st' (mkS MEndValue (FObjNext f :: stk) dep [] top rng) ->
     exists st'', run st' body = Some st'' /\
@@ -625,7 +640,7 @@ Section Accept.
 
   (* the complete encoding of v, from the start state, alone in the input *)
   Theorem enc_decodes : forall v b,
-    enc_gen ind 0 v = Some b -> nums_valid v -> jdepth v <= max_nesting_depth ->
+    enc_gen ind 0 v = Some b -> nums_sat P v -> jdepth v <= max_nesting_depth ->
     decode_next b = DValue (jnorm v) [].
   Proof.
     intros v b He Hnv Hd.
@@ -770,9 +785,9 @@ Section Theorems.
      format_json produces for a real float64 is a JSON number literal, and parse_float
      reads it back as the same float64. *)
   Hypothesis Hnum_syntax : forall x b,
-    valid_binary prec emax x = true -> format_json x = Some b -> json_number b = true.
+    is_float64 x -> format_json x = Some b -> json_number b = true.
   Hypothesis Hnum_roundtrip : forall x b,
-    valid_binary prec emax x = true -> format_json x = Some b -> parse_float b = PFok x.
+    is_float64 x -> format_json x = Some b -> parse_float b = PFok x.
 
   Lemma marshal_indent_inv : forall v b, marshal_indent v = Some b ->
     enc_gen true 0 v = Some b /\ jdepth v <= max_nesting_depth.
@@ -787,7 +802,7 @@ Section Theorems.
     decode_next b = DValue (jnorm v) [].
   Proof.
     intros v b Hn H. destruct (marshal_indent_inv v b H) as [He Hd].
-    exact (enc_decodes Hnum_syntax Hnum_roundtrip true v b He Hn Hd).
+    exact (enc_decodes is_float64 Hnum_syntax Hnum_roundtrip true v b He Hn Hd).
   Qed.
 
   Theorem marshal_never_malformed : forall v b, finite_numbers v -> marshal_indent v = Some b ->
@@ -798,7 +813,7 @@ Section Theorems.
   Theorem marshal_compact_decodes : forall v b, finite_numbers v -> jdepth v <= max_nesting_depth ->
     marshal_compact v = Some b -> decode_next b = DValue (jnorm v) [].
   Proof.
-    intros v b Hn Hd H. exact (enc_decodes Hnum_syntax Hnum_roundtrip false v b H Hn Hd).
+    intros v b Hn Hd H. exact (enc_decodes is_float64 Hnum_syntax Hnum_roundtrip false v b H Hn Hd).
   Qed.
 
   (* 2. round trip *)
